@@ -713,6 +713,10 @@ func (nfs *Nfs) NFSPROC3_RENAME(args nfstypes.RENAME3args) nfstypes.RENAME3res {
 				inums[2] = frominum
 				inums[3] = toinum
 				inodes = lockInodes(op, inums)
+				if inodes == nil {
+					// an inode went away under us (lockInodes has aborted): retry
+					continue
+				}
 				dipfrom = inodes[0]
 				dipto = inodes[1]
 				from = inodes[2]
@@ -723,6 +727,10 @@ func (nfs *Nfs) NFSPROC3_RENAME(args nfstypes.RENAME3args) nfstypes.RENAME3res {
 				inums[1] = frominum
 				inums[2] = toinum
 				inodes = lockInodes(op, inums)
+				if inodes == nil {
+					// an inode went away under us (lockInodes has aborted): retry
+					continue
+				}
 				dipfrom = inodes[0]
 				dipto = inodes[0]
 				from = inodes[1]
